@@ -797,5 +797,123 @@ def task_rotd_apply(ctx):
     ctx.undecided_clause("that the local-frame d integrals handed to this routine are expressed in the frame P and are axially symmetric (they are to 5e-8 eV numerically: truncated literals in the local-integral code)")
 
 
-TASKS_QUICK = ["rotq", "rotq_jacobian", "w_rotation", "overlap_assembly_d", "overlap_assembly_sp", "overlap_assembly_quat", "rotd_prologue", "rotd_tables", "rotd_apply"]
+def task_rotd_core(ctx):
+    """RotateCore: the rotated core-electron attraction vector is  sum_(kl) C[(mu nu),(kl)] c_loc[(kl)]  for the axially symmetric
+    local vector c_loc (ss, sigma s, sigma sigma, pi pi = pi' pi', d_sigma s, d_sigma p_sigma, d_pi p_pi = d_pi' p_pi',
+    d_sigma d_sigma, d_pi d_pi = d_pi' d_pi', d_delta d_delta = d_delta' d_delta'), C the symmetrised-product table of T."""
+    fn = ctx.under_contract(RMD + ":RotateCore")
+    ctx.under_contract(RMD + ":GenerateRotationMatrix", note="tail executed on symbolic P, D entries to produce `matrix`")
+    gcode, gloads, gstores, _ = _slice_statements(RMD + ":GenerateRotationMatrix", lambda t: t.startswith("K = 0"), lambda t: t.startswith("return"))
+    Psym, Dsym = st.symbolic((1, 3, 3), "P"), st.symbolic((1, 5, 5), "D")
+    core = st.symbolic((1, 45), "c")
+
+    def thunk():
+        env = {"torch": st, "np": np, "xij": st.zeros(1, 3), "device": st._CPU, "dtype": st.float64, "INDX": [0, 1, 3, 6, 10, 15, 21, 28, 36], "P": Psym, "D": Dsym}
+        exec(gcode, env)
+        return {idx: fn(core, env["matrix"], idx) for idx in (1, 2, 3)}
+
+    ex = ctx.explore(thunk, name="rotd-core")
+    if len(ex.paths) != 1 or ex.paths[0].raised is not None:
+        ctx.error("paths", "%r %s" % ([p.raised for p in ex.paths], ex.paths[0].notes.get("traceback", "")[-700:] if ex.paths else ""))
+        return
+    out = ex.paths[0].value
+    T = [[S(0)] * 9 for _ in range(9)]
+    T[0][0] = S(1)
+    for mu in range(3):
+        for k in range(3):
+            T[1 + mu][1 + k] = Psym.a[0, k, mu]
+    for mu in range(5):
+        for k in range(5):
+            T[4 + mu][4 + k] = Dsym.a[0, k, mu]
+    C = sym2(T)
+    c = lambda i: core.a[0, i]
+    # local vector in the local orbital order of `matrix` (s; sigma, pi, pi'; d_sigma, d_pi, d_pi', d_delta, d_delta'), values read from
+    # the positions of the z-axis-frame integral vector (s, px, py, pz=sigma, dx2-y2, dxz, dz2=sigma, dyz, dxy)
+    loc = {(0, 0): c(0), (1, 0): c(6), (1, 1): c(9), (2, 2): c(2), (3, 3): c(2), (4, 0): c(21), (4, 1): c(24), (5, 2): c(16), (6, 3): c(16),
+           (4, 4): c(27), (5, 5): c(20), (6, 6): c(20), (7, 7): c(14), (8, 8): c(14)}
+    shell = lambda o: 0 if o == 0 else (1 if o < 4 else 2)
+    for idx, top in ((1, 0), (2, 1), (3, 2)):
+        r = out[idx]
+        for mp in range(45):
+            mu = max(a for a in range(9) if a * (a + 1) // 2 <= mp)
+            nu = mp - mu * (mu + 1) // 2
+            if shell(mu) > top:
+                want = S(0)
+            else:
+                want = sum(C[(mp, _pair_index(k, l))] * v for (k, l), v in loc.items() if shell(k) <= top)
+            ctx.prove_eq("index=%d.rotated-core[molecular pair %d]" % (idx, mp), r.a[0, mp], want)
+    ctx.assume_note("the local core vector is axially symmetric by construction of this routine (it reads ten entries of its input and ignores the rest)")
+
+
+def quaternion_rotation():
+    """every proper rotation, rationally: R(a,b,c,d)/(a^2+b^2+c^2+d^2)"""
+    a, b, c, d = real("qa"), real("qb"), real("qc"), real("qd")
+    n = a * a + b * b + c * c + d * d
+    R = [[a * a + b * b - c * c - d * d, 2 * (b * c - a * d), 2 * (b * d + a * c)],
+         [2 * (b * c + a * d), a * a - b * b + c * c - d * d, 2 * (c * d - a * b)],
+         [2 * (b * d - a * c), 2 * (c * d + a * b), a * a - b * b - c * c + d * d]]
+    return [[R[i][j] / n for j in range(3)] for i in range(3)]
+
+
+def task_dipole_covariance(ctx):
+    """calc_ground_dipole: rotating the geometry by R and the density by the s-p representation of R rotates the dipole by R
+    (all proper rotations through the rational quaternion parametrisation; batch [OH, HH])."""
+    from contracts.es_common import ghost_es_molecule
+    from contracts.md_common import Obj
+
+    fn = ctx.under_contract("seqm.seqm_functions.dipole:calc_ground_dipole")
+    ctx.under_contract("seqm.seqm_functions.dipole:calc_dipole_matrix", stubs=["dd_qq"])
+    R = quaternion_rotation()
+
+    def dd_stub(qn, zs, zp):
+        return st.symbolic((len(qn),), "dd"), st.symbolic((len(qn),), "qq")
+
+    def run(rotated):
+        def thunk():
+            mol = ghost_es_molecule()
+            mol.const.qn = st.tensor([0.0, 1, 1, 2, 2, 2, 2, 2, 2, 2])
+            Pm = st.symbolic((2, 8, 8), "P")
+            for m, i in ((0, 1), (1, 0), (1, 1)):  # packing invariant (C05): no density on hydrogen p slots
+                for k in range(1, 4):
+                    Pm.a[m, 4 * i + k, :] = S(0.0)
+                    Pm.a[m, :, 4 * i + k] = S(0.0)
+            if rotated:
+                x = mol.coordinates
+                xr = np.empty(x.a.shape, dtype=object)
+                for m in range(2):
+                    for i in range(2):
+                        for c in range(3):
+                            xr[m, i, c] = sum(R[c][k] * x.a[m, i, k] for k in range(3))
+                mol.coordinates = st.T(xr, st.float64, True)
+                T = [[S(0)] * 8 for _ in range(8)]
+                for i in range(2):
+                    T[4 * i][4 * i] = S(1)
+                    for c in range(3):
+                        for k in range(3):
+                            T[4 * i + 1 + c][4 * i + 1 + k] = R[c][k]
+                Pr = np.empty((2, 8, 8), dtype=object)
+                for m in range(2):
+                    for a in range(8):
+                        for b in range(8):
+                            Pr[m, a, b] = sum(T[a][p_] * Pm.a[m, p_, q_] * T[b][q_] for p_ in range(8) for q_ in range(8) if not (isinstance(T[a][p_], Sym) and T[a][p_].n.op == "const" and T[a][p_].n.val == 0)
+                                              and not (isinstance(T[b][q_], Sym) and T[b][q_].n.op == "const" and T[b][q_].n.val == 0))
+                Pm = st.T(Pr, st.float64, True)
+            fn(mol, Pm)
+            return mol.dipole
+        return ctx.explore(thunk, stubs={"seqm.seqm_functions.dipole:dd_qq": dd_stub}, constants={"a0": real("a0"), "to_debye": real("to_debye"), "debye_to_AU": real("debye_to_AU")}, name="dipole-rot")
+
+    e0, e1 = run(False), run(True)
+    for ex in (e0, e1):
+        if len(ex.paths) != 1 or ex.paths[0].raised is not None:
+            ctx.error("paths", "%r %s" % ([p.raised for p in ex.paths], ex.paths[0].notes.get("traceback", "")[-700:] if ex.paths else ""))
+            return
+    d0, d1 = e0.paths[0].value, e1.paths[0].value
+    for m in range(2):
+        for c in range(3):
+            ctx.prove_eq("dipole(R x, T P T^T)[%d,%d] = (R dipole(x, P))[%d,%d]" % (m, c, m, c), d1.a[m, c], sum(R[c][k] * d0.a[m, k] for k in range(3)))
+    ctx.canary_eq("unrotated-dipole-is-not-the-rotated-one", d1.a[0, 0], d0.a[0, 0])
+    ctx.assume_note("density restricted by the packing invariant; hybridisation arm lengths (dd_qq) are rotation-invariant atom constants (stub)")
+
+
+TASKS_QUICK = ["rotq", "rotq_jacobian", "w_rotation", "overlap_assembly_d", "overlap_assembly_sp", "overlap_assembly_quat", "rotd_prologue", "rotd_tables", "rotd_apply", "rotd_core", "dipole_covariance"]
 TASKS_THOROUGH = TASKS_QUICK
